@@ -171,3 +171,131 @@ func R46() Rule {
 		}
 	}}
 }
+
+// ---------------------------------------------------------------------------
+// R45: data timestamps come from the server's injectable clock
+// ---------------------------------------------------------------------------
+
+// R45: the emulator is given its clock (Options.Clock → server.clock); server-assigned cell
+// timestamps and garbage-collection cut-offs must be computed from it.  A direct call of
+// bigtable.Now / bigtable.Time(time.Now()) in the service code bypasses the injected clock:
+// GC then condemns cells by wall-clock age, and server timestamps disagree with the clock the
+// embedding test controls.  (The real clock is legitimately read for the *activity stamps*
+// lastReadNanos/lastWriteNanos, which are plain int64 nanoseconds, not bigtable.Timestamp.)
+func R45() Rule {
+	return Rule{Name: "R45", Run: func(c *core.Ctx) {
+		P := c.P
+		n, clockCalls := 0, 0
+		for _, fn := range P.SrcFuncs(core.PkgBttest) {
+			k := 0
+			for _, ci := range core.AllCalls(fn) {
+				// a call through the clock field
+				if ci.Static == nil && ci.Method == nil {
+					if ld, ok := core.Resolve(ci.Common.Value).(*ssa.UnOp); ok {
+						if fa, ok := ld.X.(*ssa.FieldAddr); ok {
+							if _, f, _ := core.FieldName(fa); f == "clock" {
+								clockCalls++
+							}
+						}
+					}
+				}
+				if ci.Static == nil || ci.Static.Pkg == nil || ci.Static.Pkg.Pkg.Path() != "cloud.google.com/go/bigtable" {
+					continue
+				}
+				if ci.Static.Name() != "Now" && ci.Static.Name() != "Time" {
+					continue
+				}
+				n++
+				k++
+				c.Fn(core.FuncName(fn))
+				c.Bad("R45", fmt.Sprintf("%s/wall-clock-timestamp#%d", core.FuncName(fn), k), ci.Instr.Pos(), "a bigtable.Timestamp is taken from the wall clock (bigtable.%s) instead of the server's injectable clock: cell timestamps / GC cut-offs no longer follow the clock the server was configured with", ci.Static.Name())
+			}
+		}
+		if n == 0 {
+			c.Ok("R45", "timestamps-from-server-clock", token.NoPos, true, "no direct bigtable.Now/Time call in the service; %d reads of the injectable clock", clockCalls)
+		}
+		if clockCalls < 3 {
+			c.Unknown("R45", "floor/clock-reads", token.NoPos, "only %d calls through server.clock found", clockCalls)
+		}
+	}}
+}
+
+// ---------------------------------------------------------------------------
+// R47: every single-row write stamps the table's write-activity clock
+// ---------------------------------------------------------------------------
+
+// R47: the background collector stands down on tables in active use by looking at
+// lastWriteNanos, and a pass clears it; a write RPC that can store a row without
+// stamping it (table.write()) is invisible to that test: the pass runs on a table
+// that was just written, or the table is never collected again.  In every RPC from
+// which updateRow is reachable, a call or defer of (*table).write dominates the path
+// to the store.
+func R47() Rule {
+	return Rule{Name: "R47", Run: func(c *core.Ctx) {
+		P := c.P
+		stamp := P.MustFunc(core.PkgBttest, "(*table).write")
+		upd := P.MustFunc(core.PkgBttest, "(*table).updateRow")
+		stamps := func(in ssa.Instruction) bool {
+			ci := core.Call(in)
+			if ci == nil || ci.Static == nil {
+				return false
+			}
+			if ci.Static == stamp {
+				return true
+			}
+			// a helper that certainly stamps (call or defer on every path)
+			if core.PkgPathOf(ci.Static) == core.PkgBttest && ci.Static.Blocks != nil {
+				for _, b := range ci.Static.Blocks {
+					for _, i2 := range b.Instrs {
+						if c2 := core.Call(i2); c2 != nil && c2.Static == stamp && b == ci.Static.Blocks[0] {
+							return true
+						}
+					}
+				}
+			}
+			return false
+		}
+		n := 0
+		for _, fn := range P.SrcFuncs(core.PkgBttest) {
+			if fn.Parent() != nil || !isServerMethod(fn) || fn.Object() == nil || !fn.Object().Exported() {
+				continue
+			}
+			scope := P.Scope(fn, func(f *ssa.Function) bool { return core.PkgPathOf(f) != core.PkgBttest || f == upd })
+			within := setOf(scope)
+			var stores []ssa.Instruction
+			for _, f := range scope {
+				for _, ci := range core.AllCalls(f) {
+					if ci.Static == upd {
+						stores = append(stores, ci.Instr)
+					}
+				}
+			}
+			if len(stores) == 0 {
+				continue
+			}
+			n++
+			c.Fn(core.FuncName(fn))
+			ok := true
+			var at token.Pos = fn.Pos()
+			for _, st := range stores {
+				for _, site := range P.ExecSites(fn, st, within) {
+					dominated := false
+					for _, b := range fn.Blocks {
+						for _, in := range b.Instrs {
+							if stamps(in) && core.InstrDominates(in, site) {
+								dominated = true
+							}
+						}
+					}
+					if !dominated {
+						ok, at = false, site.Pos()
+					}
+				}
+			}
+			c.Check(ok, "R47", core.FuncName(fn)+"/write-activity-stamped", at, "every path to the row store passes a call or defer of table.write()", "a row can be stored without the table's write-activity clock being stamped: the background collector does not see the write (it runs on a table in use, and after its next pass the table is never collected again)")
+		}
+		if n < 3 {
+			c.Unknown("R47", "floor/write-rpcs", token.NoPos, "only %d RPCs that reach updateRow found", n)
+		}
+	}}
+}
